@@ -179,6 +179,7 @@ let case_retry k args lines =
        let last_opt = ref false in
        let ncb = ref 0 in
        let nremoved = ref 0 in
+       let bad_pending = ref false and nbad = ref 0 in
        let seen_end = ref false in   (* callbacks after END come from ares_destroy *)
        let ntx = ref 0 in
        let base = match metrics_server_timeout timeout maxt { tv_sec = zi 1000; tv_usec = Z0 } metrics_init with Ok b -> b | _ -> Z0 in
@@ -205,7 +206,7 @@ let case_retry k args lines =
            | "c" -> Some (mk ~tc:true ())
            | "f" -> Some (mk ~formerr:true ~opt:false ())
            | "F" -> Some (mk ~formerr:true ())
-           | "b" -> Some (if !last_opt then mk ~bad:true () else mk ())   (* without OPT the extended rcode cannot be encoded *)
+           | "b" | "k" | "K" -> Some (if !last_opt then mk ~bad:true () else mk ())   (* without OPT the extended rcode cannot be encoded *)
            | "g" | "G" -> None                                          (* does not parse *)
            | _ -> Some (mk ~drop:true ()) in
          if tcp <> "-1" then begin
@@ -217,7 +218,11 @@ let case_retry k args lines =
              | k :: rest ->
                Hashtbl.replace feats ("reply-" ^ k) ();
                (match rk k with
-                | Some r -> (fun () -> push_in (IReply (srv, tcp = "1", true, r))) :: thunks rest
+                | Some r -> (fun () ->
+                    (* a BADCOOKIE reply the library acts upon: the query is outstanding on this
+                       connection and its request carried a cookie *)
+                    if r.r_cookie_bad && (!q).q_ended = None && (!q).q_conn <> None && (!q).q_req_cookie then bad_pending := true;
+                    push_in (IReply (srv, tcp = "1", true, r))) :: thunks rest
                 | None ->
                   Hashtbl.replace feats "malformed" ();
                   [(fun () -> if (!q).q_conn <> None && (!q).q_ended = None then push_in (IConnClosed (srv, aRES_EBADRESP))); flush_all]) in
@@ -234,6 +239,13 @@ let case_retry k args lines =
            incr ntx;
            (* a transmission = successful write inside ares_send_query *)
            if (!q).q_queued <> O && not (!q).q_sending then flush_all ();
+           if !bad_pending then begin
+             (* C06: at most COOKIE_RESEND_MAX re-sends come from BADCOOKIE replies, the last one over TCP *)
+             bad_pending := false; incr nbad;
+             Hashtbl.replace feats "badcookie-resend" ();
+             if zlt cOOKIE_RESEND_MAX (zi !nbad) then fail k "badcookie-resends-exceed" "%d re-sends caused by BADCOOKIE replies (at most %s)" !nbad (dz cOOKIE_RESEND_MAX)
+             else if Z.eqb (zi !nbad) cOOKIE_RESEND_MAX && tcp <> "1" then fail k "badcookie-no-tcp-fallback" "re-send number %d after BADCOOKIE still over UDP" !nbad
+           end;
            push_in (ISend (!s_now, SoWriteOk (cookie = "1")));
            expect_out (OTx (tcp = "1", opt = "1"));
            last_tx := Some ((!q).q_try_count, !s_now);
@@ -276,7 +288,7 @@ let case_retry k args lines =
            Hashtbl.replace feats "early" ();
            if dtx <> "0" || cb <> "0" then fail k "fired-before-deadline" "1us before the hint expired: transmissions=%s callbacks=%s" dtx cb
          | ["E"; "timeout"] ->
-           last_tx := None;
+           last_tx := None; bad_pending := false;
            push_in (ITimeout !s_now)
          | ["E"; "reply"; kind; copies; tcp] ->
            last_tx := None;
@@ -333,8 +345,8 @@ let case_retry k args lines =
           if a <> "0" && not (List.mem "CLOCKRANGE" lines) then fail k "query-never-terminates" "%s queries still active at the end" a
         | _ -> ());
        if !ncb > 1 then fail k "callback-count" "callback called %d times" !ncb;
-       List.iter (fun s -> if Z.eqb s aRES_SUCCESS && not (Hashtbl.mem feats "reply-a" || Hashtbl.mem feats "reply-x" || Hashtbl.mem feats "reply-c" || Hashtbl.mem feats "reply-f"
-                                                            || Hashtbl.mem feats "reply-F" || Hashtbl.mem feats "reply-b" || Hashtbl.mem feats "reply-s" || Hashtbl.mem feats "reply-n" || Hashtbl.mem feats "reply-r") then
+       let any_reply = Hashtbl.fold (fun key () acc -> acc || starts_with "reply-" key) feats false in
+       List.iter (fun s -> if Z.eqb s aRES_SUCCESS && not any_reply then
                      fail k "success-without-answer" "completed with ARES_SUCCESS without any reply") (completions tr);
        let fl = List.sort compare (Hashtbl.fold (fun key () acc -> key :: acc) feats []) in
        let fl = List.filter (fun f -> not (starts_with "reply-" f)) fl @ (if List.exists (starts_with "reply-") fl then ["replies"] else []) in
